@@ -132,7 +132,13 @@ func ruleR29(c *Ctx) {
 				if bad == "" {
 					c.r.ok("R29", key, m.pos(pos), okWhy, props...)
 				} else {
-					c.r.bad("R29", key, m.pos(pos), "reachable from query entry points of "+joinShort(kinds, 3)+": "+bad, props...)
+					ps := props
+					if strings.Contains(bad, "captured from an enclosing function") {
+						// state kept in a closure that a query leaves behind (a predicate handed to the
+						// returned sequence) survives the pass: the next pass starts from it (C14)
+						ps = append(append([]string(nil), props...), "C14")
+					}
+					c.r.bad("R29", key, m.pos(pos), "reachable from query entry points of "+joinShort(kinds, 3)+": "+bad, ps...)
 				}
 			}
 			switch x := n.(type) {
@@ -314,7 +320,7 @@ func (c *Ctx) argFreshAtCalls(u *FuncUnit, pi int, depth int) (bool, int) {
 		var at *FactSet
 		cfl.walk(func(x ast.Node, fs *FactSet, stmt ast.Node, b *cfg.Block) {
 			if x == ast.Node(s.call) && at == nil {
-				at = fs
+				at = fs.clone()
 			}
 		})
 		if at == nil {
